@@ -14,7 +14,7 @@
    The model of the satisfier is compared with the implementation on every run, and
    independently every witness the implementation returns is executed.
    The script-number facts used (minimal encoding round-trips) are proved in ScriptNumProofs.v. *)
-From Verif Require Import Exec Ser Ast Types TypeCheck SatSpec Sat ExecLemmas TheoremA SatProofs.
+From Verif Require Import Exec Ser Spend Ast Types TypeCheck SatSpec Sat ExecLemmas TheoremA SatProofs.
 
 Theorem C01_table_sound_partial :
   forall (e : env) (ke : keyenv) (A : assets), assets_ok e ke A -> (forall kbs, e_sigok e kbs [] = false) ->
@@ -41,6 +41,24 @@ Theorem C01_model_satisfier_spends :
     forall bs, satisfy ke se f mall rhs m = Some bs -> accepts e (enc ke m) (rev bs) = true.
 Proof. exact model_satisfaction_spends. Qed.
 Print Assumptions C01_model_satisfier_spends.
+
+(* Descriptor level for P2WSH: the witness [items..., script] validates against the program
+   sha256(script) under consensus + standardness rules, given that the serialised script parses
+   back (C04's ser_parse) and that the size limits hold for this script and witness (C09). *)
+Theorem C01_wsh_descriptor_spends :
+  forall (e : env) (ke : keyenv) (A : assets) (se : senv) (f : fill),
+  linked ke A se f -> (forall ks, length (ksort ke ks) = length ks) ->
+  assets_ok (with_sv e SvWitnessV0) ke A -> (forall kbs, e_sigok e kbs [] = false) ->
+  forall (mall rhs : bool) (m : ms) (t : ty),
+    type_of m = ROk t -> c_base (t_corr t) = BB -> wf (with_sv e SvWitnessV0) ke m -> no_multi m ->
+    forall bs, satisfy ke se f mall rhs m = Some bs ->
+    let sb := serialize (enc ke m) in
+    parse_script sb = Some (enc ke m) ->
+    (blen sb <= 3600)%N -> (N.of_nat (length bs) <= 100)%N -> forallb (fun it => N.leb (blen it) 80) (rev bs) = true ->
+    (count_nonpush_ops (enc ke m) <= 201)%N ->
+    verify_wsh e (e_sha256 e sb) (bs ++ [sb]) = true.
+Proof. exact model_wsh_spends. Qed.
+Print Assumptions C01_wsh_descriptor_spends.
 
 (* non-vacuity: a concrete well-typed script with a non-empty table *)
 Example C01_nonvacuous :
